@@ -592,6 +592,18 @@ func genQuery(r *rand.Rand, w Window, o GenOpts) string {
 func genCase(seed int64, id int, o GenOpts) *Case {
 	r := rand.New(rand.NewSource(seed*1_000_003 + int64(id)))
 	c := &Case{ID: id, Seed: seed}
+	if o.Focus == "pairs" {
+		// the exhaustive space of C09: case id enumerates (selector a, selector b, template)
+		c.Window = Window{Start: 900_000, End: 1_200_000, Step: 30_000}
+		if id%7 == 0 {
+			c.Window = Window{Start: 1_000_000, End: 1_000_000, Step: 0}
+		}
+		c.Lookback = 300_000
+		c.Procs = pick(r, []int{2, 8, 16})
+		c.Data = pairData(c.Window)
+		c.Query = pairQuery(r, id)
+		return c
+	}
 	c.Window = genWindow(r)
 	c.Lookback = pick(r, []int64{0, 0, 30_000, 300_000, 90_000, 1_000})
 	if r.Intn(6) == 0 {
